@@ -673,11 +673,14 @@ class LazyStackedTensorDict(TensorDictBase):
             value = self.hook_in(value)
         values = value.unbind(self.stack_dim)
         for tensordict, item in _zip_strict(self.tensordicts, values):
+            # the value was validated against the batch size / device of the stack; the
+            # nested tensordict that receives it in each member may have more batch dims
+            # (or another device): it must validate the piece it is given
             tensordict._set_tuple(
                 key,
                 item,
                 inplace=inplace,
-                validated=validated,
+                validated=False,
                 non_blocking=non_blocking,
             )
         return self
